@@ -808,6 +808,14 @@ def run_config(c, m=None):
             except BaseException:          # noqa: B902
                 L2 = None
         judge(tag, lambda: L.costIV(np.array(th_iv), apply_weighting=aw), full_theta(th_iv[:len(tsel)]), x0_eff, "cost")
+        # a second costIV with the SAME parameter values and other initial values (a scan over initial values), then plain cost again
+        th_iv2 = list(th_iv[:len(tsel)]) + [float(v) * 1.21 + 0.37 for v in th_iv[len(tsel):]]
+        x0_eff2 = list(x0)
+        for i, v in zip(ssel, th_iv2[len(tsel):]):
+            x0_eff2[i] = float(v)
+        judge("costIV-second", lambda: L.costIV(np.array(th_iv2), apply_weighting=aw), full_theta(th_iv2[:len(tsel)]), x0_eff2, "cost")
+        # (like theta, the initial values a loss object integrates from are the last ones it was given)
+        judge("cost-after-costIV", lambda: L.cost(np.array(th_iv[:len(tsel)]), apply_weighting=aw), full_theta(th_iv[:len(tsel)]), x0_eff2, "cost")
         if x0_buf is not None:
             # the initial values a loss object was constructed with are its own: another object's costIV (which tries other
             # initial values) must change neither the caller's array nor what a sibling object integrates from
